@@ -683,6 +683,9 @@ def c16(run, op, ctx, after):
     r = ctx.get("resp")
     if kind == "propfind" and r is not None and r.status == 207:
         check_depth(run, op, ctx, after)
+    elif kind == "propfind" and r is not None and r.status >= 500 and ctx.get("read_fault"):
+        # an injected read error may fail the request; it may not thin out a 207
+        run.nontrivial["propfind_failed_under_read_fault"] = run.nontrivial.get("propfind_failed_under_read_fault", 0) + 1
     elif kind == "propfind" and r is not None and r.status >= 500:
         run.v("C16", "C16.propfind-failed", "PROPFIND %s Depth %s (%s) -> %s" % (op["path"], op.get("depth"), op.get("kind"), r.status), request=op.get("kind"))
     if kind == "post" and ctx.get("location") and ctx.get("success"):
